@@ -275,9 +275,17 @@ func (e *Engine) RunConcrete(fn *ssa.Function, inputs map[string]uint64, opts Op
 func (e *Engine) runPath(fn *ssa.Function, item WorkItem) {
 	ex.beginPath(item)
 	ex.stats.Paths++
-	if ex.threads != nil {
-		ex.threads = newSched()
-	}
+	ex.threads = nil
+	resetSideTables()
+	atomicClocks = map[*value]vclock{}
+	defer func() {
+		if ex.threads != nil {
+			ex.threads.teardown()
+			ex.stats.Assumes["scheduling points"] += ex.threads.points
+			ex.stats.Assumes["thread switches"] += ex.threads.switches
+			ex.threads = nil
+		}
+	}()
 	defer func() {
 		if ex.steps > ex.stats.MaxSteps {
 			ex.stats.MaxSteps = ex.steps
@@ -301,6 +309,11 @@ func (e *Engine) runPath(fn *ssa.Function, item WorkItem) {
 		case unsupported:
 			ex.inconclusive("unsupported: " + p.what)
 		case engineAbort:
+			if strings.HasPrefix(p.why, "deadlock") {
+				ex.stats.PathsDone++
+				ex.recordViolation("deadlock", p.why, "", ex.model.vals)
+				return
+			}
 			ex.inconclusive(p.why)
 			if p.why == "step budget exceeded" {
 				ex.recordViolation("nonterm", "step budget exceeded (possible non-termination)", "", ex.model.vals)
